@@ -6,7 +6,6 @@ package main
 
 import (
 	"fmt"
-	"sort"
 	"time"
 
 	"github.com/Tom-Johnston/mamba/disjoint"
@@ -837,7 +836,7 @@ func runOne(r *driver.Run) {
 		}
 		m := g.M()
 		nb := neighbours(g)
-		// vertex classes: an ordered partition of the vertex set, each class ascending
+		// vertex classes: an ordered partition of the vertex set, members ascending at first
 		var classes [][]int
 		var classVec []int
 		if classRate > 0 && t.Draw(8) < classRate {
@@ -864,6 +863,18 @@ func runOne(r *driver.Run) {
 			}
 			if len(classes) >= 2 {
 				r.Probe("request-with-two-or-more-vertex-classes")
+			}
+			// a class is a set: half of the requests list its members in an arbitrary order
+			if t.Chance(1, 2) {
+				for _, vs := range classes {
+					p := t.Perm(len(vs))
+					w := make([]int, len(vs))
+					for i := range vs {
+						w[i] = vs[p[i]]
+					}
+					copy(vs, w)
+				}
+				r.Probe("request-with-classes-listed-in-arbitrary-order")
 			}
 		}
 		viab := interruptRate > 0 && t.Draw(8) < interruptRate && n >= 2
@@ -966,7 +977,6 @@ func copyClasses(c [][]int) [][]int {
 	out := make([][]int, len(c))
 	for i := range c {
 		out[i] = append([]int(nil), c[i]...)
-		sort.Ints(out[i])
 	}
 	return out
 }
@@ -974,13 +984,15 @@ func copyClasses(c [][]int) [][]int {
 func main() {
 	driver.Main(&driver.Spec{
 		Property: "C02",
-		Engine:   "canon-service",
-		Level:    "exploration",
-		Rule: "a case is one seeded history of up to 14 labelling requests through ONE reused CanonicalStorage/CanonicalOrderedPartition/CanonicalOptions triple of tape-chosen capacity N <= 9 (one history in six: 10 <= N <= 16; one in 30: 21 <= N <= 28; one in six is a 'showcase': a generalised Petersen graph GP(5..10,k), Moebius ladder, torus, Kneser/Johnson graph, hypercube, Clebsch, Paley, rook/Shrikhande, Heawood or circulant graph - possibly complemented, doubled or with an extra isolated/universal vertex, up to 26 vertices - asked again and again under fresh relabellings): graph sizes go up and down within capacity; families: edgeless, complete, cycle, complete bipartite, complete multipartite, unions of cliques and their complements, rook graphs, random regular graphs (half of them only 0-3 switches away from a circulant), named symmetric graphs (hypercubes, Petersen and generalised Petersen graphs, prisms, Moebius ladders, tori, Paley graphs) with 0-2 edge switches and sometimes one pair toggled, two copies of a random graph, circulants, planted automorphisms, relabelled copy of the previous graph, random densities; some requests carry vertex classes (an ordered partition, classes ascending) and some are 'interrupted' (CheckViability with tape-drawn ViableBits, which may return early and leave the partition mid-search before the next Reset). " +
+		// the labelling search is exponential in the worst case and C02 says nothing about cost
+		BudgetInconclusive: true,
+		Engine:             "canon-service",
+		Level:              "exploration",
+		Rule: "a case is one seeded history of up to 14 labelling requests through ONE reused CanonicalStorage/CanonicalOrderedPartition/CanonicalOptions triple of tape-chosen capacity N <= 9 (one history in six: 10 <= N <= 16; one in 30: 21 <= N <= 28; one in six is a 'showcase': a generalised Petersen graph GP(5..10,k), Moebius ladder, torus, Kneser/Johnson graph, hypercube, Clebsch, Paley, rook/Shrikhande, Heawood or circulant graph - possibly complemented, doubled or with an extra isolated/universal vertex, up to 26 vertices - asked again and again under fresh relabellings): graph sizes go up and down within capacity; families: edgeless, complete, cycle, complete bipartite, complete multipartite, unions of cliques and their complements, rook graphs, random regular graphs (half of them only 0-3 switches away from a circulant), named symmetric graphs (hypercubes, Petersen and generalised Petersen graphs, prisms, Moebius ladders, tori, Paley graphs) with 0-2 edge switches and sometimes one pair toggled, two copies of a random graph, circulants, planted automorphisms, relabelled copy of the previous graph, random densities; some requests carry vertex classes (an ordered partition; the members of a class are listed ascending or, in half of these requests, in an arbitrary order) and some are 'interrupted' (CheckViability with tape-drawn ViableBits, which may return early and leave the partition mid-search before the next Reset). " +
 			"Each answer must equal the same call on fresh storage and CanonicalIsomorphFull (perm, orbit partition, generator list), perm must be a permutation, and for groups of up to 60000 elements brute force over all (class-preserving) automorphisms must confirm orbits = orbits of Aut(g), every generator in Aut(g), closure of the generators = Aut(g). Non-trivial = at least 3 requests with at least one size change; distinct = distinct fingerprints of the observed answers.",
 		Assumptions: []string{
 			"the caller protocol of the search package is followed: Reset(n, m, classes) before every call, sizes within the capacity the pair was created with, n >= 1",
-			"vertex classes are passed as ascending lists forming an ordered partition of the vertex set",
+			"vertex classes are passed as lists forming an ordered partition of the vertex set (every vertex in exactly one class; members in any order)",
 			"brute force is limited to |Aut(g)| <= 60000 (larger groups, e.g. complete / edgeless graphs on >= 9 vertices, are compared with the fresh call only)",
 			"the 'orbits = Aut(g)' half is a per-input statement; it is checked on the graphs the histories visit",
 		},
